@@ -244,6 +244,10 @@ class single_filter(_SingleOp):
 @register
 class single_rollback(_SingleOp):
     qualname = SS + ".rollback"
+    # an alias between the working array and the stored initial copy is harmless as long as no operation writes in place (since /repo
+    # 9277f10 none does): the clause is kept as an early warning, but it is a violation only when c14_sequences shows the initial copy,
+    # the user's array or a restored state actually changing
+    replay_gated = ("data-and-initial-copy-are-distinct-arrays",)
 
     def check(self, c, pre, post, outcome):
         if outcome[0] != "return":
